@@ -86,7 +86,7 @@ type vC04Emission struct {
 
 func TestVerif_C04_fullrt(t *testing.T) {
 	vh.Run(t, vh.Spec{Prop: "C04", Unit: "fullrt", Quick: 600, Thorough: 20000, CostMs: 8,
-		Rule:    "FullRT over a simulated network (1-30 crawled peers, K in {1,2,3,5,8,20}; 0-50% failing/silent/late) with a generated validator (value bound to its key, total rank order, optional expiry instant); each peer holds for the key: a valid record of rank 1-6, an expired one, a malformed one, one whose value was made for another key, one filed under another key, an empty one, or nothing; local store: nothing, a valid record, or a record that was valid when stored and is rejected by the validator when the search runs (clock advanced past its expiry); quorum option in {absent,0,1,2,K}; SearchValue (every emission time-stamped) or GetValue, un-cancelled, virtual time; non-trivial = at least 2 records were supplied and at least one of them was not acceptable, or at least 2 values were emitted; distinct by (shape, record mix, arrival order of the answers)",
+		Rule:    "FullRT over a simulated network (1-30 crawled peers, K in {1,2,3,5,8,20}; 0-50% failing/silent/late) with a generated validator (value bound to its key, total rank order, optional expiry instant); each peer holds for the key: a valid record of rank 1-6 (holders of an even rank share identical bytes), an expired one, a malformed one, one whose value was made for another key, one filed under another key, an empty one, or nothing; local store: nothing, a valid record, or a record that was valid when stored and is rejected by the validator when the search runs (clock advanced past its expiry); quorum option in {absent,0,1,2,K}; SearchValue (every emission time-stamped) or GetValue, un-cancelled, virtual time; non-trivial = at least 2 records were supplied and at least one of them was not acceptable, or at least 2 values were emitted; distinct by (shape, record mix, arrival order of the answers)",
 		Clauses: []string{"yielded-valid", "strictly-improving", "yielded-was-supplied", "final-at-least-best-supplied", "not-found-iff-nothing-valid"}},
 		func(c *vh.Case) {
 			sc := vC04Gen(c)
@@ -127,6 +127,11 @@ func TestVerif_C04_fullrt(t *testing.T) {
 						exp := time.Time{}
 						if i%2 == 0 {
 							exp = far
+						}
+						if sc.Rank[i]%2 == 0 {
+							// holders of an even rank all serve the very same bytes (several peers holding the same
+							// record is the normal case in a DHT): exercises the equal-value path of the selection
+							tag, exp = "shared", time.Time{}
 						}
 						rec = &recpb.Record{Key: []byte(sc.Key), Value: vFrtVal(sc.Key, sc.Rank[i], exp, tag)}
 					case "stale":
@@ -173,8 +178,12 @@ func TestVerif_C04_fullrt(t *testing.T) {
 					ch, err := n.D.SearchValue(ctx, sc.Key, opts...)
 					opErr = err
 					if err == nil {
+						synctest.Wait() // the consumer is not there yet when the search offers its first value (no virtual time passes)
 						for v := range ch {
 							ems = append(ems, vC04Emission{Val: v, VT: time.Now()})
+							// not receiving right now: everything else runs until it blocks (no virtual time passes), so a
+							// value offered at this very instant finds the consumer busy, as with any real consumer
+							synctest.Wait()
 						}
 					}
 				case "GetValue":
